@@ -5,37 +5,37 @@ HERE = os.path.dirname(os.path.dirname(os.path.abspath(__file__)))
 
 # property -> (category, technique, level text, level note, design ref)
 P = {
- "C01": ("model_checking", "explicit-state BFS (own + stateright) of the real ScancodeSet2 / Keyboard::add_byte in lock-step with a 6-context reference automaton over all 256 bytes; exhaustive byte-stream trees (3 / 4 bytes)",
+ "C01": ("model_checking", "explicit-state BFS (own + stateright) of the real ScancodeSet2 / Keyboard::add_byte in lock-step with a 6-context reference automaton over all 256 bytes; exhaustive byte-stream trees (3 / 4 bytes); pumped streams (every word of <=2/<=3 bytes repeated 300/12 times)",
          "Closed reachability search of the product (real decoder x R-AUTO2): every byte from every reachable state is compared with the standard table, so the verdict covers byte streams of any length; confirmed hook-free by all streams of <=3 (quick) / <=4 (thorough, 2^32) bytes.",
          "Trusted: the hand-written Set 2 table and prefix grammar in harness/src/refs/scancodes.rs (README table, NumpadEnter row corrected to E0 5A). State identity = derived PartialEq (hook H2). F0 00 / F0 AA left loose.", "DESIGN.md 7/C01"),
- "C02": ("model_checking", "explicit-state BFS (own + stateright) of the real ScancodeSet1 / Keyboard::add_byte in lock-step with a 3-context reference automaton over all 256 bytes; exhaustive byte-stream trees (3 / 4 bytes)",
+ "C02": ("model_checking", "explicit-state BFS (own + stateright) of the real ScancodeSet1 / Keyboard::add_byte in lock-step with a 3-context reference automaton over all 256 bytes; exhaustive byte-stream trees (3 / 4 bytes); pumped streams (every word of <=2/<=3 bytes repeated 300/12 times)",
          "Closed reachability search of the product (real decoder x R-AUTO1), 3 x 256 transitions, valid for streams of any length; hook-free confirmation on all streams of <=3 / <=4 bytes.",
          "Trusted: the hand-written Set 1 table (README table, Apps row corrected to E0 5D; JIS keys unprefixed) and grammar in harness/src/refs/scancodes.rs.", "DESIGN.md 7/C02"),
- "C07": ("model_checking", "reachable-graph extraction of both real decoders by BFS (own + stateright), bisimulation check of every post-event/post-error state against new(), longest no-event chain; exhaustive differential stream trees with fresh-decoder shadows",
+ "C07": ("model_checking", "reachable-graph extraction of both real decoders by BFS (own + stateright), bisimulation check of every post-event/post-error state against new(), longest no-event chain; exhaustive differential stream trees with fresh-decoder shadows; pumped streams with a self-referential repetition oracle",
          "Every edge of the real decoders' reachable graphs that reports an event or error must end in a state no byte sequence can distinguish from new(); prefix chains bounded by 2 (Set 2) / 1 (Set 1). Hook-free confirmation: all streams <=3 / <=4 bytes against shadows restarted after each terminal result.",
          "State identity via hook H2 (derived PartialEq/Debug over all fields); no reference table involved.", "DESIGN.md 7/C07"),
  "C19": ("exploration", "exhaustive enumeration of both sets x 3 prefix tables x every code, make and break form, on the real decoders (self-referential pairing/injectivity oracle)",
          "All complete key sequences of both sets are enumerated on fresh real decoders (bare and through Keyboard::add_byte); no reference table.",
          "None beyond the sequence grammar ([E0|E1][F0]code; Set 1 bit 7 = break).", "DESIGN.md 7/C19"),
- "C04": ("model_checking", "explicit-state BFS (own + stateright) of the real Keyboard<Echo,_>/EventDecoder<Echo> in lock-step with the modifier reference model over 124 keys x 3 key states + mode switches; exhaustive event-history trees (depth 4 / 5) against the history form of the reference",
+ "C04": ("model_checking", "explicit-state BFS (own + stateright) of the real Keyboard<Echo,_>/EventDecoder<Echo> in lock-step with the modifier reference model over 124 keys x 3 key states + mode switches; EventDecoder closure also over change_layout; exhaustive event-history trees (depth 4 / 5) against the history form of the reference; pumped event words (all words of <=2 events x 200)",
          "Closed reachability search of (real decoder x R-MODS): all 512 x 2 reference states, 383k transitions per device; get_modifiers() and the modifiers shown to a recording layout compared after every transition - covers event histories of any length.",
          "Trusted: R-MODS (events.rs rmods_step / rmods_history), written from the property text. State identity = derived PartialEq (hook H3).", "DESIGN.md 7/C04"),
- "C05": ("fault_enumeration", "exhaustive enumeration of all 2048 11-bit words through Ps2Decoder::add_word and Keyboard::add_word plus every 1-bit and 2-bit corruption of every valid frame (whole-word and bit-serial) against a reference frame check",
+ "C05": ("fault_enumeration", "exhaustive enumeration of all 2048 11-bit words through Ps2Decoder::add_word and Keyboard::add_word plus every 1-bit and 2-bit corruption of every valid frame (whole-word and bit-serial), and every frame followed bit-serially by every valid frame on one decoder (524288 fault sequences), against a reference frame check",
          "The input space (2048 frames) and the fault space (256 x 66 corruptions) are enumerated completely.",
          "Trusted: R-FRAME (frame.rs r_frame) from the add_word documentation. Words above bit 10 are out of scope (C08 checks they do not panic).", "DESIGN.md 7/C05"),
- "C06": ("model_checking", "explicit-state BFS (own + stateright) of the real Ps2Decoder x shadow frame over {bit 0, bit 1, clear} with bisimulation check of every post-frame/post-clear state against new(); exhaustive 2-frame (2^22) / 3-frame (2^33) bit-stream trees; clear() from every partial prefix x every frame",
+ "C06": ("model_checking", "explicit-state BFS (own + stateright) of the real Ps2Decoder x shadow frame over {bit 0, bit 1, clear} with bisimulation check of every post-frame/post-clear state against new(); exhaustive 2-frame (2^22) / 3-frame (2^33) bit-stream trees; clear() from every partial prefix x every frame; pumped frames (each of 2048 frames x 300, with and without partial frame + clear between)",
          "All 2047 partial-frame states x 3 actions, closed; the 11th-bit result is compared with the real whole-word decoder and with R-FRAME; hook-free confirmation over all ordered frame pairs (quick) / triples (thorough).",
          "State identity via hook H3; R-FRAME as second opinion.", "DESIGN.md 7/C06"),
- "C14": ("model_checking", "explicit-state BFS (own + stateright) of the real EventDecoder/Keyboard with a recording layout (echoes key, modifiers, mode, layout tag) in lock-step with R-MODS, incl. set_ctrl_handling and change_layout actions; real EventDecoder<AnyLayout> over all 10x10 layout switches x 512 modifier states by replay",
+ "C14": ("model_checking", "explicit-state BFS (own + stateright) of the real EventDecoder/Keyboard with a recording layout (echoes key, modifiers, mode, layout tag) in lock-step with R-MODS, incl. set_ctrl_handling and change_layout actions; real EventDecoder<AnyLayout> over all 10x10 layout switches x 512 modifier states by replay; two-press sweep (every key, every sequence of <=2 of 22 modifier/mode/layout actions between two presses, from all 1024/2048 states); pumped event words",
          "Closed search over 2048 (EventDecoder, two layout tags) / 1024 (Keyboard) states x 376/374 actions: return value of every event in every reachable state is compared with what the statement prescribes.",
          "Trusted: R-MODS supplies the 'current modifier state'. State identity = hook H3.", "DESIGN.md 7/C14"),
- "C18": ("model_checking", "exhaustive relation sweep of the real Keyboard against a composite of three real stages (result + per-stage state via hook H4) over the product state space at deviation bound 1 (quick) / full product 2047x6x1024 and 2047x3x1024 states x 2681 operations (thorough); closed BFS (own + stateright) of (Keyboard x composite) over a reduced alphabet",
+ "C18": ("model_checking", "exhaustive relation sweep of the real Keyboard against a composite of three real stages (result + per-stage state via hook H4) over the product state space at deviation bound 1 (quick) / full product 2047x6x1024 and 2047x3x1024 states x 2681 operations (thorough); closed BFS (own + stateright) of (Keyboard x composite) over a reduced alphabet; hidden (non-stage) state changes decided by a behavioural probe",
          "Every (product state, operation) transition is executed on the real Keyboard and on the reference wiring; equality of results and of all three stage states proves isolation; closure under reachability makes it a statement about all operation sequences. The BFS over a reduced alphabet additionally covers hidden cross-stage state.",
          "Trusted: apply_ref (compose.rs), ~20 lines transcribing the statement. The stages themselves are the real code. Layout = recording layout Echo.", "DESIGN.md 7/C18"),
  "C03": ("exploration", "exhaustive table sweep: 30 layout objects x main-block character keys x every level-selecting modifier value (of 512) x 2 modes against hand-written national layout tables; end-to-end through real scancodes -> Keyboard<real layout> in all 512 reachable modifier states",
          "The domain of the pure layout functions is enumerated completely for the states the property constrains (CapsLock off, Ctrl not mapped, Shift+AltGr free).",
          "Trusted: R-LAYOUT (harness/src/refs/layouts.rs), written from KBDUS/KBDUK/KBDGR/KBDFR/KBDNO/KBDFI/KBD106/KBDDV, colemak.com, Programmer Dvorak; variant cells are sets; Colemak/DVP AltGr cells are unjudged.", "DESIGN.md 7/C03"),
- "C08": ("exploration", "exhaustive enumeration of every input x every reachable state of every component (graphs from explicit-state BFS; Keyboard product at deviation bound 1 / full product) in a journalling child process under catch_unwind, built with overflow checks and debug assertions; abort and hang detection by the parent",
+ "C08": ("exploration", "exhaustive enumeration of every input x every reachable state of every component (graphs from explicit-state BFS; Keyboard product at deviation bound 1 / full product) plus guarded 22-bit / 3-byte stream trees and pumped streams (words x300, frames x300), in a journalling child process under catch_unwind, built with overflow checks and debug assertions; abort and hang detection by the parent",
          "Oracle is only 'returned normally'; reachable states come from the explorations so unreachable unimplemented!() arms raise no alarm.",
          "Assumes the checked build profile (harness/Cargo.toml). Watchdog 300 s (quick) / 1800 s (thorough) per journal line.", "DESIGN.md 7/C08"),
  "C09": ("exploration", "exhaustive table sweep 30 layout objects x 124 keys x 512 modifier values x 2 modes with a self-referential oracle (control code of the layout's own unmodified letter; mode/Ctrl change nothing elsewhere); thorough adds EventDecoder with set_ctrl_handling",
@@ -46,7 +46,7 @@ P = {
          "Complete enumeration.", "Trusted: R-PRED (common.rs r_*), five one-line formulas from the property text.", "DESIGN.md 7/C11"),
  "C12": ("exploration", "exhaustive search over 30 layout objects x 124 keys x 3 plain levels for a witness of each of the 95 printable ASCII characters; thorough re-types every character through EventDecoder key events",
          "Existence is decided by complete enumeration of the search space.", "Levels: no modifier, left Shift, right Alt (NumLock in its initial state).", "DESIGN.md 7/C12"),
- "C13": ("model_checking", "exhaustive enumeration of 3 prefix tables x 130 translatable Set 2 codes x {make,break} through both real decoders under the i8042 translation table, and conversely all Set 1 codes against their pre-images; explicit-state BFS (own + stateright) of a pair of real Keyboards fed the Set 2 stream and its translation, over all 512 modifier states",
+ "C13": ("model_checking", "exhaustive enumeration of 3 prefix tables x 130 translatable Set 2 codes x {make,break} through both real decoders under the i8042 translation table, and conversely all Set 1 codes against their pre-images; explicit-state BFS (own + stateright) of a pair of real Keyboards fed the Set 2 stream and its translation (242 key sequences, 218 glitch variants with a stray bit + clear() before the last byte, ~320 uncompared noise sequences), over all 512 modifier states",
          "Table level: complete. End-to-end: closed search of the pair system over press/release of every key expressible in both sets (quick: 2 layouts x 1 mode; thorough: 10 layouts x 2 modes).",
          "Trusted: R-8042 (refs/scancodes.rs XLATE), the published controller translation table.", "DESIGN.md 7/C13"),
  "C15": ("exploration", "exhaustive table sweep 30 layout objects x 23 keys x 512 modifier values x 2 modes against the numpad/editing reference",
